@@ -138,7 +138,9 @@ Definition disjoint (ws : list worker) : Prop :=
                       In o (fp wi) -> ~ In o (fp wj).
 
 (* ------------------------------------------------------------------ what the caller sees *)
-Inductive mode := MSeq | MThreads | MProcs.
+Inductive mode := MSeq | MThreads | MProcs
+                  | MProcsFixed.   (* not the code as it is: processes after the proposed repair (a process queue for
+                                      the exceptions; a factory target falls back to threads) *)
 Inductive target := TFile | TMem.     (* extractall(path) | extractall(factory=...) *)
 
 (* `if exc_q.empty(): pass else: raise exc_q.get()[1]` -- the first exception queued *)
@@ -174,6 +176,8 @@ Definition extract (md : mode) (t : target) (sched : list nat) (o0 : outmap) (pr
                  filesystem, factory products live and die in the children *)
               (match t with TFile => s_out s | TMem => o1 end,
                post_pass t (fp pre ++ targets ws) (s_out s))
+    | MProcsFixed => let s := run sched (init o1 ws) in
+              (s_out s, after (result_of (s_chan s)) (post_pass t (fp pre ++ targets ws) (s_out s)))
     end
   end.
 
@@ -226,13 +230,13 @@ Definition t_nat (n : nat) : tree := TI (Z.of_nat n).
 Definition t_outs (n : nat) (m : outmap) : tree := TL (map (fun o => t_opt t_bytes (m o)) (seq 0 n)).
 Definition t_chan (ch : list (nat * err)) : tree := TL (map (fun p => TL [t_nat (fst p); t_err (snd p)]) ch).
 Definition t_unit_res (r : res unit) : tree := t_res (fun _ => TL []) r.
-Definition of_mode (z : Z) : mode := match z with 0%Z => MSeq | 1%Z => MThreads | _ => MProcs end.
+Definition of_mode (z : Z) : mode := match z with 0%Z => MSeq | 1%Z => MThreads | 2%Z => MProcs | _ => MProcsFixed end.
 Definition of_target (z : Z) : target := match z with 0%Z => TFile | _ => TMem end.
 Definition none_map : outmap := fun _ => None.
 
 Definition par_dispatch (fn : Z) (a : tree) : tree :=
   match fn with
-  (* FN 240 par_extract : (mode target sched pre workers nouts) -> (outs result) *)
+  (* FN 240 par_extract : (mode target sched pre workers nouts) -> (outs result) ; mode 0 seq 1 threads 2 processes 3 processes-repaired *)
   | 240%Z =>
       let r := extract (of_mode (of_TI (tnth a 0))) (of_target (of_TI (tnth a 1))) (of_sched (tnth a 2))
                        none_map (of_worker (tnth a 3)) (of_workers (tnth a 4)) in
@@ -247,7 +251,7 @@ Definition par_dispatch (fn : Z) (a : tree) : tree :=
   (* FN 243 par_select_mode : (mp password_protected by_name nfolders) -> 0 seq | 1 threads | 2 processes *)
   | 243%Z =>
       TI (match select_mode (of_bool (tnth a 0)) (of_bool (tnth a 1)) (of_bool (tnth a 2)) (of_nat_t (tnth a 3)) with
-          | MSeq => 0%Z | MThreads => 1%Z | MProcs => 2%Z end)
+          | MSeq => 0%Z | MThreads => 1%Z | MProcs => 2%Z | MProcsFixed => 3%Z end)
   (* FN 244 par_outnames : names -> names *)
   | 244%Z => TL (map t_bytes (outnames (map of_bytes (of_TL a))))
   (* FN 245 par_two : (sched workersA workersB nouts) -> (outs resultA resultB finished) *)
